@@ -21,6 +21,11 @@ pub enum Op {
     Sub,
     /// try to open the existing storage while also supplying a key pair (must be refused)
     OpenKp,
+    /// apply a proof (honest or altered) received from a peer; meta is the logged description
+    Proof {
+        proof: Box<hypercore::Proof>,
+        meta: Value,
+    },
 }
 
 pub fn op_json(op: &Op) -> Value {
@@ -36,6 +41,7 @@ pub fn op_json(op: &Op) -> Value {
         Op::Mro => json!({"o":"mro"}),
         Op::Sub => json!({"o":"sub"}),
         Op::OpenKp => json!({"o":"openkp"}),
+        Op::Proof { meta, .. } => meta.clone(),
     }
 }
 
@@ -57,6 +63,7 @@ pub fn exec(core: &mut Core, op: &Op) -> Value {
             json!({"t":"ok"})
         }
         Op::OpenKp => core.open_with_key_pair(),
+        Op::Proof { proof, .. } => core.apply_proof(proof),
     }
 }
 
@@ -124,10 +131,10 @@ fn open_json(r: &OpenResult) -> Value {
     }
 }
 
-fn start_core(start: &Start) -> (Core, OpenResult) {
+fn start_core(start: &Start, id: &str) -> (Core, OpenResult) {
     match start {
-        Start::Create => Core::create("w", VDisk::new(), test_key_pair()),
-        Start::Images(img) => Core::open("w", VDisk::from_images(img.clone())),
+        Start::Create => Core::create(id, VDisk::new(), test_key_pair()),
+        Start::Images(img) => Core::open(id, VDisk::from_images(img.clone())),
     }
 }
 
@@ -177,6 +184,8 @@ pub struct Driver {
     pub rec: Rec,
     pub rng: StdRng,
     pub suffix_salt: u64,
+    /// id of the core whose faults are being enumerated
+    pub cid: String,
 }
 
 impl Driver {
@@ -190,8 +199,9 @@ impl Driver {
             v.push(Op::Reopen);
             v.push(Op::Batch(vec![vec![1, 2], vec![]]));
         } else {
-            // clear(start, end) is only defined for start < length
-            if len_hint > 0 {
+            // clear(start, end) is only defined for start < length; a sparse replica cannot in
+            // general compute the byte range of blocks it does not hold, so no clear there
+            if len_hint > 0 && self.cid != "r" {
                 v.push(Op::Clear(0, 1));
             }
             v.push(Op::Reopen);
@@ -214,12 +224,12 @@ impl Driver {
         depth: u32,
         cont: bool,
     ) {
-        let mut ev = json!({"e":kind,"c":"w","op":opj});
+        let mut ev = json!({"e":kind,"c":self.cid,"op":opj});
         for (k, v) in extra.as_object().unwrap() {
             ev[k] = v.clone();
         }
         self.rec.begin(ev.clone());
-        let (mut core, res) = Core::open("w", VDisk::from_images(img.clone()));
+        let (mut core, res) = Core::open(&self.cid.clone(), VDisk::from_images(img.clone()));
         ev["open"] = open_json(&res);
         if let OpenResult::Ok = res {
             ev["view"] = core.view();
@@ -259,7 +269,7 @@ impl Driver {
             let pre_img = if depth > 0 { Some(core.disk.images()) } else { None };
             let j0 = core.disk.journal_len();
             let o0 = core.disk.ops();
-            let mut ev = json!({"e":"op","c":"w","op":opj});
+            let mut ev = json!({"e":"op","c":core.id,"op":opj});
             self.rec.begin(ev.clone());
             let ret = exec(core, op);
             let evs = core.drain();
@@ -365,7 +375,7 @@ impl Driver {
 
     /// Re-execute the lineage, fail storage operation number j of `op`, reopen, record.
     fn ioerr_branch(&mut self, lin: &Lineage, op: &Op, opj: &Value, j: usize) {
-        let (mut core, res) = start_core(&lin.start);
+        let (mut core, res) = start_core(&lin.start, &self.cid.clone());
         if !matches!(res, OpenResult::Ok) {
             return;
         }
@@ -375,7 +385,7 @@ impl Driver {
         }
         let at = core.disk.ops() + j as u64;
         core.disk.arm_failure(at);
-        let mut ev = json!({"e":"ioerr","c":"w","op":opj,"j":j});
+        let mut ev = json!({"e":"ioerr","c":self.cid,"op":opj,"j":j});
         self.rec.begin(ev.clone());
         let ret = exec(&mut core, op);
         let hit = core.disk.disarm();
@@ -755,7 +765,7 @@ pub fn run_replay(args: &[String]) {
         max_points: 0,
     };
     let rec = Rec::new(&out, 20);
-    let mut d = Driver { rec: rec.clone(), rng: StdRng::seed_from_u64(7), suffix_salt: 7 };
+    let mut d = Driver { rec: rec.clone(), rng: StdRng::seed_from_u64(7), suffix_salt: 7, cid: "w".into() };
     let text = std::fs::read_to_string(&input).unwrap();
     for (n, line) in text.lines().enumerate() {
         if line.trim().is_empty() || (only.is_some() && only != Some(n)) {
@@ -869,6 +879,7 @@ pub fn run(args: &[String]) {
         rec: rec.clone(),
         rng: StdRng::seed_from_u64(seed ^ 0x5eed),
         suffix_salt: seed,
+        cid: "w".into(),
     };
     let g = profile(&prof, ops);
     for r in 0..runs {
